@@ -46,6 +46,18 @@ CLAIMED = {
          "Generated and enumerated URL x proxy configurations over the four routes; the dial record (host, port, scheme), target form (origin vs absolute), absence of fragment and credentials, the single Host field, the CONNECT authority and the SNI are compared with the model.",
          "For https connect URLs the injected transport is the decrypted channel (TLS to that peer skipped by the hook); https-through-proxy to an IPv6 literal is excluded (the client offers '[::1]' as SNI, refused by a conforming server).",
          "DESIGN.md §4 C08"),
+ "C09": ("property-based testing (proptest): generated redirect walks against a walk model and an RFC 3986 section 5.2 resolver written from the RFC",
+         "Generated redirect chains and cycles over statuses 300..=308 and twelve Location forms with max_redirections 0..8 and following on/off; the number of requests, every request's connection target and request target, the error kind and Response::url() are compared with the model; chains of exactly max and max+1 redirects are forced.",
+         "References come from a grammar on which RFC 3986 and the WHATWG parser agree; a response that both exceeds the bound and lacks a usable Location may fail with either error.",
+         "DESIGN.md §4 C09"),
+ "C10": ("property-based testing (proptest): every hop of generated redirect chains parsed by the strict reference parser and checked against the per-hop route model, header model and first-hop body",
+         "Generated chains of 1..4 redirects whose URLs change host, port, scheme and proxy applicability (per-scheme proxies, no-proxy list), nine body kinds and caller headers; per hop: dial, Host, target form, caller fields, framing consistency, and identical method/body while only 307/308 were followed.",
+         "Method/body rewriting for 301-303 and credential stripping across hosts are not asserted; tunnelled hops accept invalid certificates (C12/C14 cover verification).",
+         "DESIGN.md §4 C10"),
+ "C11": ("exhaustive enumeration (thorough) and proptest sampling of ProxySettings::for_url / from_env against a selection model; single-threaded because the environment is process-global",
+         "Builder domain: every host over a 3-label alphabet (plus IP literals, mixed case) against every no-proxy list of <= 2 entries (thorough) incl. empty strings, leading dots, blanks, IP fragments, for each scheme and proxy configuration. Environment domain: all 7^6 assignments of the six proxy variables and all 289 no_proxy/NO_PROXY pairs, observed through for_url on three probe hosts.",
+         "Ambiguous corners the statement leaves open are accepted both ways and counted; the environment is mutated in-process on one thread.",
+         "DESIGN.md §4 C11"),
 }
 hooks_commits = subprocess.run(["git","-C","/repo","log","--format=%h %s"],capture_output=True,text=True).stdout.splitlines()
 hook_commits = [l.split()[0] for l in hooks_commits if l.split(' ',1)[1].startswith('verif-hooks')]
